@@ -227,6 +227,7 @@ C17_RejLimitsAbsent == IsRej => RejLimitsAbsentNoResidual(c)
 C17_RejZeroWeight == IsRej => RejZeroWeightOnlyDev(c)
 C17_RejZeroSigmaSign == IsRej => RejZeroSigmaSign(c)
 C17_RejModesAgree == IsRej => RejModesAgree(c)
+C17_RejGrowSupersetLaw == IsRej => RejGrowSupersetLaw(c)
 C17_RejExpectedAccepted == IsRej => (RejectOK(c, exp.gmax, exp.done) /\ RejectOK(c, exp.gmin, exp.donemin))
 C17_RejDevDiffers == (IsRej /\ c.grow = 0) => Dev_GrowIgnored(c) = GoodMax(c)
 
